@@ -17,6 +17,7 @@ def check(ctx):
     xc.mc_subpkg(ctx, cfgs)
     xc.mc_stream(ctx, [(5, "{}"), (7, "{}")])   # transfers whose parts are cut and coalesced by the transport
     xc.trace_extract(ctx, 300 if thorough else 40)
+    xc.oversized_transfers(ctx)
     live(ctx)
     ctx.cov["rule"] = ("MC_SubPkg: every behaviour of a terminal sending up to two sub-packaged messages (packet 1 first, others any order, "
                        "duplicates, impossible numbers 0 and N+1, a plain message) up to MaxSteps frames, each in its own read; C05 invariants "
